@@ -162,6 +162,9 @@ class TracepointConfigService:
         :return: the new TracePointConfig
         """
         config = build_trigger(str(uuid.uuid4()), path, line, args, watches, metrics)
+        if config is None:
+            # do not register something we cannot act on (it would end up in the config given to the listeners)
+            raise ValueError("Cannot process tracepoint with args: %s" % args)
         self._custom.append(config)
         self.__trigger_update(None, None)
         return config.id
